@@ -331,6 +331,11 @@ class Extractor(Translator):
             self.rule("delete[]->free")
             return X("call", "free", [p])
         d = info.get("dtor")
+        if T.kind == "rec" and T.name in self.opts.get("delete_ghost", ()):
+            # the object's storage is kept and marked dead (ghost), so that any later use is caught by `requires !g_dead`
+            self.rule("delete->ghost-dead")
+            t = self.newtmp(Ty("ptr", to=T))
+            return X("comma", X("assign", "=", t, p), X("cond", t, X("assign", "=", X("mem", deref(t), "g_dead"), X("lit", "1")), X("lit", "0")))
         self.rule("delete->dtor+free")
         if d and "trivial" not in self.ast.finfo(d):
             fn = self.request_dtor(d, T)
